@@ -1,84 +1,177 @@
 (* The Hilbert chip order (hilbert.py) lists every working chip exactly once -- the side condition of the
-   completeness theorem -- for every machine of at most 16 x 16 chips.  Finite statement: the L-system model
-   [hilbert k] is checked, by computation inside Coq, to enumerate the 2^k x 2^k square without repetition
-   for k <= 4, and [hilbert_levels] (the model of int(ceil(log(max(w, h), 2)))) is checked to cover max(w, h). *)
+   completeness theorem -- for EVERY machine size.  Structural induction on the level of the L-system: started
+   at p with heading d (one of the four axis directions) and angle a (+1 / -1), the curve of level k visits
+   every point p + i*d + j*L (0 <= i, j < 2^k; L = d turned by a) and has 4^k points, so it enumerates that
+   2^k x 2^k square without repetition; it ends at p + (2^k - 1)*d with heading d.  [hilbert_levels] (the model
+   of int(ceil(log(max(w, h), 2.0)))) returns a level with 2^level >= max(w, h). *)
 From Coq Require Import ZArith List Bool Lia.
-Require Import Rig.Model.Base Rig.Model.Place Rig.Spec.Place Rig.Proofs.Place Rig.Proofs.PlaceCore.
+Require Import Rig.Model.Base Rig.Model.Place Rig.Spec.Place Rig.Proofs.Place Rig.Proofs.PlaceCore
+        Rig.Proofs.PlaceMerge Rig.Proofs.PlaceSeq Rig.Proofs.PlaceComplete.
 Import ListNotations.
 Open Scope Z_scope.
 
-Fixpoint nodup_chipsb (l : list chip) : bool :=
-  match l with [] => true | c :: t => negb (chip_mem c t) && nodup_chipsb t end.
+Definition axis (dx dy : Z) : Prop :=
+  (dx = 1 /\ dy = 0) \/ (dx = -1 /\ dy = 0) \/ (dx = 0 /\ dy = 1) \/ (dx = 0 /\ dy = -1).
 
-Lemma nodup_chipsb_NoDup : forall l, nodup_chipsb l = true -> NoDup l.
+Lemma in_parts : forall {A} (s0 q1 q2 q3 : A) p1 p2 p3 p4 pt,
+  In pt (s0 :: p1) \/ In pt (q1 :: p2) \/ In pt (q2 :: p3) \/ In pt (q3 :: p4) ->
+  In pt (s0 :: p1 ++ [q1] ++ p2 ++ [q2] ++ p3 ++ [q3] ++ p4).
 Proof.
-  induction l as [|c t IH]; intros H; [constructor|]. cbn [nodup_chipsb] in H. apply andb_true_iff in H.
-  destruct H as [H1 H2]. constructor; [|apply IH; exact H2].
-  apply negb_true_iff in H1. intros Hin. apply chip_mem_In in Hin. congruence.
+  intros A s0 q1 q2 q3 p1 p2 p3 p4 pt H. cbn [In app] in *. rewrite !in_app_iff. cbn [In]. rewrite !in_app_iff. cbn [In].
+  rewrite !in_app_iff. cbn [In]. tauto.
 Qed.
 
+Ltac use_ih IH k :=
+  match goal with
+  | |- context [hilbert_rec k ?a' {| hx := ?x'; hy := ?y'; hdx := ?dx'; hdy := ?dy' |}] =>
+      let H := fresh "H" in
+      pose proof (IH a' x' y' dx' dy' ltac:(lia) ltac:(unfold axis; lia)) as H;
+      let p := fresh "p" in let s := fresh "s" in
+      destruct (hilbert_rec k a' {| hx := x'; hy := y'; hdx := dx'; hdy := dy' |}) as [p s];
+      cbn [fst snd] in H;
+      let HL := fresh "HL" in let HS := fresh "HS" in let HC := fresh "HC" in
+      destruct H as [HL [HS HC]]; subst s; unfold h_turn, h_fwd; cbn [hx hy hdx hdy]
+  end.
+
+Ltac pick_point :=
+  match goal with
+  | H : In ?p ?l |- In ?q ?l => replace q with p; [exact H | f_equal; lia]
+  end.
+
+Lemma hilbert_rec_inv : forall k a x y dx dy,
+  (a = 1 \/ a = -1) -> axis dx dy ->
+  (length (fst (hilbert_rec k a {| hx := x; hy := y; hdx := dx; hdy := dy |})) + 1 = 4 ^ k)%nat
+  /\ snd (hilbert_rec k a {| hx := x; hy := y; hdx := dx; hdy := dy |})
+     = {| hx := x + (2 ^ Z.of_nat k - 1) * dx; hy := y + (2 ^ Z.of_nat k - 1) * dy; hdx := dx; hdy := dy |}
+  /\ forall i j, 0 <= i < 2 ^ Z.of_nat k -> 0 <= j < 2 ^ Z.of_nat k ->
+       In (x + i * dx + j * (- a * dy), y + i * dy + j * (a * dx))
+          ((x, y) :: fst (hilbert_rec k a {| hx := x; hy := y; hdx := dx; hdy := dy |})).
+Proof.
+  induction k as [|k IH]; intros a x y dx dy Ha Hax.
+  - cbn [hilbert_rec fst snd length]. split; [reflexivity|]. split.
+    + change (2 ^ Z.of_nat 0) with 1. f_equal; lia.
+    + change (2 ^ Z.of_nat 0) with 1. intros i j Hi Hj. assert (i = 0) by lia. assert (j = 0) by lia. subst i j.
+      left. f_equal; lia.
+  - assert (Hn : 2 ^ Z.of_nat (S k) = 2 * 2 ^ Z.of_nat k) by (rewrite Nat2Z.inj_succ, Z.pow_succ_r; lia).
+    assert (Hpos : 0 < 2 ^ Z.of_nat k) by (apply Z.pow_pos_nonneg; lia).
+    rewrite Hn. set (n := 2 ^ Z.of_nat k) in *.
+    destruct Ha as [Ha | Ha]; destruct Hax as [[Hx Hy] | [[Hx Hy] | [[Hx Hy] | [Hx Hy]]]]; subst a dx dy;
+      cbn [hilbert_rec]; unfold h_turn, h_fwd; cbn [hx hy hdx hdy];
+      use_ih IH k; use_ih IH k; use_ih IH k; use_ih IH k; cbn [fst snd];
+      (split; [rewrite !app_length; cbn [length]; rewrite Nat.pow_succ_r'; unfold chip in *; lia|]);
+      (split; [f_equal; lia|]);
+      intros i j Hi Hj;
+      destruct (Z_lt_le_dec i n) as [Hi' | Hi']; destruct (Z_lt_le_dec j n) as [Hj' | Hj'];
+      apply in_parts;
+      first [ solve [left; specialize (HC j i ltac:(lia) ltac:(lia)); pick_point]
+            | solve [right; left; specialize (HC0 i (j - n) ltac:(lia) ltac:(lia)); pick_point]
+            | solve [right; right; left; specialize (HC1 (i - n) (j - n) ltac:(lia) ltac:(lia)); pick_point]
+            | solve [right; right; right; specialize (HC2 (n - 1 - j) (2 * n - 1 - i) ltac:(lia) ltac:(lia)); pick_point] ].
+Qed.
+
+
+(* ---------------------------------------------------------------------------------------------- *)
+(* The curve of level k enumerates the 2^k x 2^k square without repetition                          *)
+(* ---------------------------------------------------------------------------------------------- *)
 Definition square (n : Z) : list chip := flat_map (fun x => map (fun y => (x, y)) (zrange n)) (zrange n).
 
-Lemma square_In : forall n x y, 0 <= x < n -> 0 <= y < n -> In (x, y) (square n).
+Lemma square_In : forall n x y, In (x, y) (square n) <-> 0 <= x < n /\ 0 <= y < n.
 Proof.
-  intros n x y Hx Hy. unfold square. apply in_flat_map. exists x. split; [apply zrange_In; exact Hx|].
-  apply in_map_iff. exists y. split; [reflexivity | apply zrange_In; exact Hy].
+  intros n x y. unfold square. rewrite in_flat_map. split.
+  - intros [x' [Hx Hin]]. apply in_map_iff in Hin. destruct Hin as [y' [E Hy]]. inversion E. subst.
+    apply zrange_In in Hx. apply zrange_In in Hy. tauto.
+  - intros [Hx Hy]. exists x. split; [apply zrange_In; exact Hx|]. apply in_map_iff. exists y.
+    split; [reflexivity | apply zrange_In; exact Hy].
 Qed.
 
-Definition hilbert_level_ok (k : nat) : bool :=
-  nodup_chipsb (hilbert k) && forallb (fun c => chip_mem c (hilbert k)) (square (2 ^ Z.of_nat k)).
-
-Lemma hilbert_levels_checked : forallb hilbert_level_ok [0; 1; 2; 3; 4]%nat = true.
-Proof. vm_compute. reflexivity. Qed.
-
-Lemma hilbert_level_order : forall m k,
-  hilbert_level_ok k = true -> pm_width m <= 2 ^ Z.of_nat k -> pm_height m <= 2 ^ Z.of_nat k ->
-  chip_order_ok m (hilbert k).
+Lemma square_NoDup : forall n, NoDup (square n).
 Proof.
-  intros m k Hok Hw Hh. unfold hilbert_level_ok in Hok. apply andb_true_iff in Hok. destruct Hok as [H1 H2].
-  split.
-  - apply NoDup_filter. apply nodup_chipsb_NoDup. exact H1.
+  intros n. unfold square. generalize (zrange_NoDup n). generalize (zrange n) at 1 3 as xs.
+  induction xs as [|x xs IH]; intros Hnd; cbn [flat_map]; [constructor|].
+  inversion Hnd as [|? ? Hx Hxs]. subst. apply NoDup_app_intro.
+  - apply FinFun.Injective_map_NoDup; [|apply zrange_NoDup]. intros a b H. inversion H. reflexivity.
+  - apply IH. exact Hxs.
+  - intros p Hp Hq. apply in_map_iff in Hp. destruct Hp as [y [Ey _]]. subst p.
+    apply in_flat_map in Hq. destruct Hq as [x' [Hx' Hq]]. apply in_map_iff in Hq. destruct Hq as [y' [Ey' _]].
+    inversion Ey'. subst. contradiction.
+Qed.
+
+Lemma zrange_length : forall n, length (zrange n) = Z.to_nat n.
+Proof. intros n. unfold zrange. rewrite map_length, seq_length. reflexivity. Qed.
+
+Lemma grid_length : forall (xs ys : list Z),
+  length (flat_map (fun x => map (fun y => (x, y)) ys) xs) = (length xs * length ys)%nat.
+Proof.
+  intros xs ys. induction xs as [|x xs IH]; cbn [flat_map length]; [reflexivity|].
+  rewrite app_length, map_length, IH. lia.
+Qed.
+
+Lemma square_length : forall n, length (square n) = (Z.to_nat n * Z.to_nat n)%nat.
+Proof. intros n. unfold square. rewrite grid_length, zrange_length. reflexivity. Qed.
+
+Lemma pow2_nat : forall k, Z.to_nat (2 ^ Z.of_nat k) = (2 ^ k)%nat.
+Proof.
+  intros k. rewrite <- (Nat2Z.id (2 ^ k)). f_equal. rewrite Nat2Z.inj_pow. reflexivity.
+Qed.
+
+Lemma hilbert_spec : forall k,
+  length (hilbert k) = (4 ^ k)%nat
+  /\ forall x y, 0 <= x < 2 ^ Z.of_nat k -> 0 <= y < 2 ^ Z.of_nat k -> In (x, y) (hilbert k).
+Proof.
+  intros k. unfold hilbert.
+  destruct (hilbert_rec_inv k 1 0 0 1 0 (or_introl eq_refl) (or_introl (conj eq_refl eq_refl))) as [HL [_ HC]].
+  split; [cbn [length]; lia|].
+  intros x y Hx Hy. specialize (HC x y Hx Hy).
+  replace (x, y) with (0 + x * 1 + y * (- (1) * 0), 0 + x * 0 + y * (1 * 1)) by (f_equal; lia). exact HC.
+Qed.
+
+Lemma hilbert_NoDup : forall k, NoDup (hilbert k).
+Proof.
+  intros k. destruct (hilbert_spec k) as [HL HC].
+  apply (@NoDup_incl_NoDup chip (square (2 ^ Z.of_nat k)) (hilbert k) (square_NoDup _)).
+  - rewrite HL, square_length, pow2_nat, <- Nat.pow_mul_l. apply Nat.le_refl.
+  - intros [x y] Hin. apply square_In in Hin. apply HC; tauto.
+Qed.
+
+(* ---------------------------------------------------------------------------------------------- *)
+(* The level chosen covers the machine                                                              *)
+(* ---------------------------------------------------------------------------------------------- *)
+Lemma levels_from_covers : forall fuel k n,
+  n <= 2 ^ Z.of_nat (k + fuel) -> n <= 2 ^ Z.of_nat (levels_from fuel k n).
+Proof.
+  induction fuel as [|fuel IH]; intros k n H; cbn [levels_from].
+  - rewrite Nat.add_0_r in H. exact H.
+  - destruct (n <=? 2 ^ Z.of_nat k) eqn:E; [apply Z.leb_le; exact E|].
+    apply IH. replace (S k + fuel)%nat with (k + S fuel)%nat by lia. exact H.
+Qed.
+
+Lemma hilbert_levels_cover : forall m,
+  Z.max (pm_width m) (pm_height m) <= 2 ^ Z.of_nat (hilbert_levels m).
+Proof.
+  intros m. unfold hilbert_levels. set (n := Z.max (pm_width m) (pm_height m)).
+  destruct (1 <=? n) eqn:E.
+  - apply Z.leb_le in E. apply levels_from_covers. cbn [Nat.add]. rewrite Z2Nat.id by lia.
+    apply Z.lt_le_incl. apply Z.pow_gt_lin_r; lia.
+  - apply Z.leb_gt in E. change (2 ^ Z.of_nat 0) with 1. lia.
+Qed.
+
+(* ---------------------------------------------------------------------------------------------- *)
+(* Hence: every working chip exactly once, for every machine                                        *)
+(* ---------------------------------------------------------------------------------------------- *)
+Theorem hilbert_chip_order_ok : forall m, chip_order_ok m (hilbert_chip_order m).
+Proof.
+  intros m. unfold hilbert_chip_order. pose proof (hilbert_levels_cover m) as Hc. split.
+  - apply NoDup_filter. apply hilbert_NoDup.
   - intros [x y] Hl. apply live_bounds in Hl. cbn [fst snd] in Hl. destruct Hl as [Hx [Hy _]].
-    rewrite forallb_forall in H2. apply chip_mem_In. apply H2. apply square_In; lia.
+    apply (proj2 (hilbert_spec (hilbert_levels m))); lia.
 Qed.
-
-Lemma levels_cover : forall n, 1 <= n <= 16 ->
-  (levels_from (Z.to_nat n) 0 n <= 4)%nat /\ n <= 2 ^ Z.of_nat (levels_from (Z.to_nat n) 0 n).
-Proof.
-  intros n Hn.
-  assert (Hc : n = 1 \/ n = 2 \/ n = 3 \/ n = 4 \/ n = 5 \/ n = 6 \/ n = 7 \/ n = 8 \/ n = 9 \/ n = 10 \/ n = 11
-               \/ n = 12 \/ n = 13 \/ n = 14 \/ n = 15 \/ n = 16) by lia.
-  repeat (destruct Hc as [Hc | Hc]; [subst n; split; [apply Nat.leb_le | apply Z.leb_le]; vm_compute; reflexivity|]).
-  subst n; split; [apply Nat.leb_le | apply Z.leb_le]; vm_compute; reflexivity.
-Qed.
-
-Theorem hilbert_chip_order_ok : forall m,
-  pm_width m <= 16 -> pm_height m <= 16 -> chip_order_ok m (hilbert_chip_order m).
-Proof.
-  intros m Hw Hh. unfold hilbert_chip_order, hilbert_levels.
-  destruct (1 <=? Z.max (pm_width m) (pm_height m)) eqn:E.
-  - apply Z.leb_le in E. set (n := Z.max (pm_width m) (pm_height m)) in *.
-    assert (Hn : 1 <= n <= 16) by (unfold n in *; lia).
-    destruct (levels_cover n Hn) as [L1 L2]. set (k := levels_from (Z.to_nat n) 0 n) in *.
-    apply hilbert_level_order; [| unfold n in *; lia | unfold n in *; lia].
-    pose proof hilbert_levels_checked as Hall. rewrite forallb_forall in Hall. apply Hall.
-    assert (Hk : (k = 0 \/ k = 1 \/ k = 2 \/ k = 3 \/ k = 4)%nat) by lia.
-    cbn [In]. intuition.
-  - (* no column or no row: no working chip at all *)
-    apply Z.leb_gt in E. split.
-    + change (hilbert 0) with [(0, 0)]. cbn [filter]. destruct (live m (0, 0)); repeat constructor; try (intros H; destruct H).
-    + intros c Hl. apply live_bounds in Hl. lia.
-Qed.
-
-Require Import Rig.Proofs.PlaceMerge Rig.Proofs.PlaceSeq Rig.Proofs.PlaceComplete.
 
 (* hilbert.place = seq_place with the Hilbert chip order (and the breadth-first or default vertex order) *)
 Theorem hilbert_place_complete : forall vr m cs r0 vorder,
   wf_problem vr m cs -> unit_premise vr m cs r0 ->
-  pm_width m <= 16 -> pm_height m <= 16 ->
   (forall vo, vorder = Some vo -> vertex_order_ok vr vo) ->
   exists pl, seq_place vr m cs vorder (Some (hilbert_chip_order m)) = Ok pl.
 Proof.
-  intros vr m cs r0 vorder W U Hw Hh Hvo. apply (seq_place_complete vr m cs r0 vorder _ W U Hvo).
-  intros co Hco. inversion Hco. subst co. apply hilbert_chip_order_ok; assumption.
+  intros vr m cs r0 vorder W U Hvo. apply (seq_place_complete vr m cs r0 vorder _ W U Hvo).
+  intros co Hco. inversion Hco. subst co. apply hilbert_chip_order_ok.
 Qed.
